@@ -51,12 +51,15 @@ func c08ClientAlloc(c *lib.Ctx, replay *c20Case) {
 			b, _ := json.Marshal(c20Case{Op: name, Idx: -1, Mut: c20Mut{Base: "valid", Kind: "none"}})
 			dryCases = append(dryCases, b)
 		}
-		results, deaths, err := cliRunPool("c20", nil, dryCases, workers, 90*time.Second, nil)
+		results, deaths, err := cliRunPoolC("c20", nil, dryCases, workers, 90*time.Second, nil, func(i int) string { return "c08/client/" + ops[i] })
 		if err != nil {
 			r.Fail(lib.Failure{Kind: "tie", Key: "clientalloc/child-start", What: err.Error()})
 			return
 		}
 		for i, name := range ops {
+			if deaths[i] == cliNotRun {
+				continue
+			}
 			var res c20Res
 			if deaths[i] != nil || results[i] == nil || json.Unmarshal(results[i], &res) != nil || len(res.Fails) > 0 || len(res.Replies) == 0 {
 				r.Fail(lib.Failure{Kind: "tie", Key: "clientalloc/valid-replies/" + name, What: "the operation does not run against the fake server's valid replies", Actual: deaths[i]})
@@ -92,7 +95,7 @@ func c08ClientAlloc(c *lib.Ctx, replay *c20Case) {
 	for i, cs := range cases {
 		raws[i], _ = json.Marshal(cs)
 	}
-	results, deaths, err := cliRunPool("c20", nil, raws, workers, 90*time.Second, nil)
+	results, deaths, err := cliRunPoolC("c20", nil, raws, workers, 90*time.Second, nil, func(i int) string { return "c08/client/" + cases[i].Op })
 	if err != nil {
 		r.Fail(lib.Failure{Kind: "tie", Key: "clientalloc/child-start", What: err.Error()})
 		return
@@ -100,6 +103,9 @@ func c08ClientAlloc(c *lib.Ctx, replay *c20Case) {
 	var maxAlloc uint64
 	failing := map[string]int{}
 	for i, cs := range cases {
+		if deaths[i] == cliNotRun {
+			continue
+		}
 		in := c08Case{Entry: "client", Kind: cs.Op, Mut: "reply-field", Client: &cases[i]}
 		r.Case(fmt.Sprintf("client %s#%d %s", cs.Op, cs.Idx, cs.Mut), true)
 		field := cs.Mut.Field
